@@ -18,3 +18,8 @@ def check(ctx, rep):
     rep.trusted = ["T8 set algebra"]
     graphrules.surgery(ctx, rep, "R18.1", "R18.2", "R18.3")
     graphrules.queries(ctx, rep, "R18.q1", "R18.q2", "R18.q3", "R18.q4", "R18.q5", "R18.q6")
+    from . import common
+    p, r = ctx.prog, ctx.roles
+    funcs = [p.supplier(r.sched, n) for n in ('bypass_and_remove', 'keep_only', 'keep_only_between', 'remove')]
+    common.job_truthiness(ctx, rep, "R18.4", funcs)
+    common.no_state_across_calls(ctx, rep, "R18.5", funcs)
